@@ -53,6 +53,29 @@ fn wrap_ref(op: &str, target: &str) -> Value {
   }
 }
 
+
+/// add harmless sibling keys next to the referencing operator of a cycle member: the cycle must
+/// be found whatever else the rule object contains (`matches` + `any` at one level, ...)
+fn decorate(obj: &mut Value, op: &str, rng: &mut Rng, utils: &mut Value) {
+  let n = rng.below(3);
+  for _ in 0..n {
+    match rng.below(8) {
+      0 if op != "matches" => {
+        utils["leaf"] = json!({"kind": "identifier"});
+        obj["matches"] = json!("leaf");
+      }
+      1 => obj["kind"] = json!("identifier"),
+      2 => obj["regex"] = json!("a"),
+      3 if op != "not" => obj["not"] = json!({"kind": "number"}),
+      4 if op != "any" => obj["any"] = json!([{"kind": "identifier"}, {"regex": "^1"}]),
+      5 if op != "all" => obj["all"] = json!([{"kind": "identifier"}]),
+      6 if op != "ofRule" => obj["nthChild"] = json!(1),
+      7 if op != "has" && op != "stopByHas" => obj["has"] = json!({"kind": "identifier"}),
+      _ => {}
+    }
+  }
+}
+
 /// is `op` evaluated on the same node as the rule that contains it?
 fn same_node(op: &str) -> bool {
   matches!(op, "matches" | "all" | "any" | "not" | "ofRule")
@@ -256,12 +279,18 @@ pub fn assemble(rng: &mut Rng, which: usize) -> Case {
       let op2 = *rng.pick(&CYCLE_OPS);
       let mut u = doc.get("utils").cloned().unwrap_or(json!({}));
       let same = if p == "cycle_utils_self" {
-        u["cy0"] = wrap_ref(op1, "cy0");
+        let mut c0 = wrap_ref(op1, "cy0");
+        decorate(&mut c0, op1, rng, &mut u);
+        u["cy0"] = c0;
         tag = format!("{p}:{op1}");
         same_node(op1)
       } else {
-        u["cy0"] = wrap_ref(op1, "cy1");
-        u["cy1"] = wrap_ref(op2, "cy0");
+        let mut c0 = wrap_ref(op1, "cy1");
+        let mut c1 = wrap_ref(op2, "cy0");
+        decorate(&mut c0, op1, rng, &mut u);
+        decorate(&mut c1, op2, rng, &mut u);
+        u["cy0"] = c0;
+        u["cy1"] = c1;
         tag = format!("{p}:{op1}+{op2}");
         same_node(op1) && same_node(op2)
       };
